@@ -225,7 +225,9 @@ def _gen_once(rng, size, feat):
         if rng.random() < 0.5:
             v, t = rng.randint(0, 9), "I"
         else:
-            v, t = [rng.randint(0, 9) for _ in range(rng.choice([0, 1, 2, 2, 3, 3, 4]))], _type_list("I")
+            # now and then a list with more than 10 elements: tags 0.10, 0.11 must sort after 0.9 (numeric, not textual)
+            n_el = rng.choice([11, 12, 13]) if rng.random() < 0.08 else rng.choice([0, 1, 2, 2, 3, 3, 4])
+            v, t = [rng.randint(0, 9) for _ in range(n_el)], _type_list("I")
         spec["sources"].append({"port": new_port(t, ("r",)), "value": v})
     kinds = [k for k, w in feat.items() for _ in range(w)]
 
